@@ -27,6 +27,7 @@ UNDER = "('_' + prefix + '__' + s[1:])"
 
 def register(reg):
     S = ['C17']
+    register_templates(reg)
     reg.contract('lark.load_grammar:_get_mangle.<locals>.mangle', serves=S,
                  params={'s': 'str', 'prefix': 'str', 'aliases': 'dict[str,str]', 'base_mangle': 'none'}, returns='str',
                  requires=['len(s) >= 1', 'len(prefix) >= 1'],
@@ -89,3 +90,36 @@ def register(reg):
                           'seq(%s[name].tree.children) == [exp] + old(seq(%s[name].tree.children))' % (D, D)],
                  raises={'GrammarError': ['all((k in %s) == (k in old(dom(%s))) for k in STR)' % (D, D)], 'AssertionError': []},
                  replay=_replay)
+
+
+# ---- template instantiation: an instance is the template's definition with its own copy of ALL the template's options
+def _instance_region(fn):
+    import ast as _ast
+    for s in _ast.walk(fn):
+        if isinstance(s, _ast.Expr) and isinstance(s.value, _ast.Call) and _ast.unparse(s.value.func) == 'self.rule_defs.append':
+            return [s]
+    return None
+
+
+def register_templates(reg):
+    OPT = ('keep_all_tokens', 'expand1', 'priority', 'template_source', 'empty_indices')
+    reg.cls('RuleOptions', target='lark.grammar:RuleOptions', fields={f: 'any' for f in OPT})
+    reg.contract('lark.grammar:RuleOptions.__init__', assumed=True, kind='method', modifies=['self'],
+                 params=dict({'self': 'RuleOptions'}, **{f: 'any' for f in OPT}),
+                 ghost={'defaults': {'keep_all_tokens': False, 'expand1': False, 'priority': None, 'template_source': None, 'empty_indices': ()}},
+                 ensures=['self.%s == %s' % (f, f) for f in OPT])
+    reg.contract('deepcopy/RuleOptions', assumed=True, params={'x': 'RuleOptions'}, returns='RuleOptions',
+                 ensures=['fresh(result)'] + ['result.%s == x.%s' % (f, f) for f in OPT])
+    reg.cls('ApplyTemplates', target='lark.load_grammar:ApplyTemplates', fields={'rule_defs': 'list[tuple[str,list[any],any,RuleOptions]]'})
+    LAST = 'self.rule_defs[len(self.rule_defs) - 1]'
+    reg.contract('lark.load_grammar:ApplyTemplates.template_usage#instance', serves=['C17'], region=_instance_region,
+                 params={'self': 'ApplyTemplates', 'result_name': 'str', 'result_tree': 'any', 'options': 'RuleOptions'},
+                 modifies=['self.rule_defs'],
+                 ghost={'ensures_fall': ['len(self.rule_defs) == old(len(self.rule_defs)) + 1',
+                                         'all(self.rule_defs[i] == old(self.rule_defs[i]) for i in range(0, len(self.rule_defs) - 1))',
+                                         # the instance is filed under its instantiated name, with the substituted tree and no parameters left ...
+                                         '%s[0] == result_name' % LAST, '%s[2] == result_tree' % LAST,
+                                         # ... and carries every option of the template: modifiers, priority, template source (what hand-instantiation would write)
+                                         ] + ['%s[3].%s == options.%s' % (LAST, f, f) for f in OPT]},
+                 types={'@list%d' % 0: 'list[any]'},
+                 names={'deepcopy': ('contract', 'deepcopy/RuleOptions'), 'RuleOptions': ('class', 'RuleOptions')}, replay=_replay)
